@@ -77,6 +77,10 @@ def Row.setKey (r : Row) (k : String) (v : AVal) : Option Row :=
 /-- some attribute of `r` holds the integer `b` (a block id written by `flatten_stmt`). -/
 def Row.hasIntAttr (r : Row) (b : Nat) : Bool := r.attrs.any (fun kv => kv.2 == AVal.int b)
 
+/-- Python `s.endswith(suffix)`, on code points (written with lists so that it evaluates in the
+kernel on literals). -/
+def strEndsWith (s suffix : String) : Bool := suffix.toList.isSuffixOf s.toList
+
 /-- ids of the rows that introduce an id (everything except `block_end`), in table order. -/
 def defIds (rows : Rows) : List Nat := (rows.filter (fun r => !r.isEnd)).map (·.id)
 
